@@ -120,7 +120,7 @@ def metadata(draw, n):
 def c16_case(draw):
     case = draw(gen.cases(
         games=PHH_GAMES, custom=False, tape_size=90, rake=False,
-        divmods=False, boards=(1,), chips=('int', 'int', 'dec'),
+        divmods=True, boards=(1,), chips=('int', 'int', 'dec', 'decn'),
         unknown=True, profiles=(0, 1, 4, 5, 5),
     ))
     cfg = case['config']
@@ -251,6 +251,12 @@ def check(case, stats):
             for k, v in list(kwargs.items()):
                 if k == 'time' and isinstance(v, str):
                     kwargs[k] = datetime.time.fromisoformat(v)
+            if cfg.get('divmod') == 'custom':
+                # a user divmod is not part of the file format: it is handed
+                # to the history (documented field) when saving and loading
+                from ..engine import _chunk_divmod
+                kwargs['divmod'] = _chunk_divmod
+                stats.count('class:custom_divmod')
             try:
                 h = HandHistory.from_game_state(game, s, **kwargs)
                 text = h.dumps()
@@ -260,7 +266,9 @@ def check(case, stats):
                 return [V(ID, 'dump_failed', exc_key(e),
                           f'{type(e).__name__}: {e}')]
             try:
-                h2 = HandHistory.loads(text)
+                h2 = HandHistory.loads(text, **(
+                    {'divmod': kwargs['divmod']} if 'divmod' in kwargs
+                    else {}))
             except Exception as e:  # noqa: BLE001
                 if not _is_engine_exception(e):
                     raise     # harness fault: exit 2
@@ -274,6 +282,27 @@ def check(case, stats):
                 out.append(V(ID, 'roundtrip_object_differs', ','.join(diff),
                              f'fields {det}'))
                 return out
+            # "the same hand history": the same numbers of the same kind
+            # (Decimal('1E+2') == 100 is true, yet an integer table splits
+            # pots differently from a Decimal one)
+            import dataclasses as _dc
+            for f_ in _dc.fields(h):
+                a_, b_ = getattr(h, f_.name), getattr(h2, f_.name)
+                la = list(a_) if isinstance(a_, (list, tuple)) else [a_]
+                lb = list(b_) if isinstance(b_, (list, tuple)) else [b_]
+                for x_, y_ in zip(la, lb):
+                    # (a number whose text is a plain integer literal, such
+                    # as Decimal('1'), is an int to any reader of the text:
+                    # the format cannot tell - not judged)
+                    if isinstance(x_, (int, float, Decimal)) and \
+                            not isinstance(x_, bool) and \
+                            type(x_) is not type(y_) and \
+                            not str(x_).lstrip('-').isdigit():
+                        out.append(V(
+                            ID, 'roundtrip_number_type', f_.name,
+                            f'{f_.name}: {x_!r} ({type(x_).__name__}) was'
+                            f' read back as {y_!r} ({type(y_).__name__})'))
+                        return out
             if h2.ante_trimming_status != s.ante_trimming_status:
                 out.append(V(ID, 'field_not_written', 'ante_trimming_status',
                              f'state {s.ante_trimming_status} history'
